@@ -349,6 +349,9 @@ def reshape(tens, shape, eps=1e-16, rmax=sys.maxsize):
     """
 
     dfin = len(shape)
+    if any(s <= 0 for t in shape for s in (t if isinstance(t, (tuple, list)) else (t,))):
+        raise ShapeMismatch(
+            'The mode sizes of the new shape must be positive.')
     cores, R = rl_orthogonal(tens.cores, tens.R, tens.is_ttm)
     if tens.is_ttm:
         M = []
